@@ -244,6 +244,10 @@ pub fn scenarios(thorough: bool) -> Vec<SubsScenario> {
 		SubsScenario { name: String::from("accept-cancelled-under-backpressure"), conns: vec![vec![Call, Subscribe(0), Call]], scripts: vec![vec![AcceptCancellable, ReturnErr]], stop: false, mask: mask_all_server, buffer: 1, max_subs: 16, max_resp: 0 },
 		// the accept() answer exceeds max_response_body_size: the peer is told -32008, so the subscription was never accepted
 		SubsScenario { name: String::from("oversized-accept-answer"), conns: vec![vec![Subscribe(0), Call]], scripts: vec![vec![Accept, Send, Send, ReturnMsg]], stop: false, mask: mask_sub_points, buffer: 16, max_subs: 16, max_resp: 100 },
+		// server stop while an ordinary call on the same connection is still executing: until stopped() resolves the
+		// subscription may stay open, afterwards the sink must report closed and sends must fail
+		SubsScenario { name: String::from("stop-with-call-in-flight"), conns: vec![vec![Subscribe(0), SlowCall]], scripts: vec![vec![Accept, Send, IsClosed, Send, IsClosed, Send]], stop: true, mask: mask_harness_only, buffer: 16, max_subs: 16, max_resp: 0 },
+		SubsScenario { name: String::from("stop-with-call-in-flight-two-conns"), conns: vec![vec![Subscribe(0)], vec![SlowCall]], scripts: vec![vec![Accept, Send, IsClosed, Send, IsClosed]], stop: true, mask: mask_harness_only, buffer: 16, max_subs: 16, max_resp: 0 },
 		// string subscription ids (id provider): the id travels as a JSON string in responses, notifications and unsubscribe params
 		SubsScenario { name: String::from("string-ids:unsubscribe-vs-sends"), conns: vec![vec![Subscribe(0), Unsub(0)]], scripts: vec![vec![Accept, Send, IsClosed, Send, ReturnErr]], stop: false, mask: mask_harness_only, buffer: 16, max_subs: 16, max_resp: 0 },
 		SubsScenario { name: String::from("string-ids:two-subs-foreign-unsub"), conns: vec![vec![Subscribe(0), UnsubForeign(1, 0)], vec![Subscribe(1)]], scripts: vec![vec![Accept, Send, IsClosed], vec![Accept, Send, IsClosed, Send]], stop: false, mask: mask_harness_only, buffer: 16, max_subs: 16, max_resp: 0 },
